@@ -183,7 +183,7 @@ func Fidelity(r *Runner, realBin, base string, tape *sim.Tape) (diff string, sha
 	logPath := filepath.Join(work, "strace.log")
 	args := append([]string{"-f", "-y", "-s", "256", "-o", logPath, "-e",
 		"trace=rename,renameat,renameat2,open,openat,unlink,unlinkat,rmdir,write,pwrite64,copy_file_range,sendfile,chmod,fchmodat,chown,fchownat,lchown,utimensat,symlink,symlinkat",
-		realBin}, c.Inv.Args()...)
+		realBin}, c.Inv.ArgsFor(root)...)
 	cmd := exec.Command("strace", args...)
 	cmd.Dir = root
 	if c.Inv.Stdin != nil {
